@@ -90,6 +90,27 @@ mut('c20_no_release_on_construct_failure', 'C20', CRT, "                future, 
 mut('c20_temp_kept_on_error', 'C20', CRT, "        if error:\n            self._osutil.remove_file(self._temp_filename)\n        else:", "        if error:\n            pass\n        else:",
     'temp file left when the CRT request fails')
 
+mut('c06_write_to_final_name', 'C06', D, "        self._temp_filename = self._osutil.get_temp_filename(fileobj)", "        self._temp_filename = fileobj",
+    'download written directly under the destination name')
+mut('c06_final_task_not_behind_writes', 'C06', D, "        final_task = download_manager.get_final_io_task()\n        return FunctionContainer(\n            self._transfer_coordinator.submit, io_executor, final_task\n        )",
+    "        final_task = download_manager.get_final_io_task()\n        return final_task", 'rename runs in the request thread, not queued behind the writes')
+mut('c08_run_callback_narrow_except', 'C08', F, "        except Exception:\n            logger.debug(f\"Exception raised in {callback}.\", exc_info=True)", "        except ValueError:\n            logger.debug(f\"Exception raised in {callback}.\", exc_info=True)",
+    'a raising on_done prevents the later subscribers')
+mut('c10_release_before_run', 'C10', F, "        future = ExecutorFuture(self._executor.submit(task, get_context()))\n        # Add the Semaphore.release() callback to the future such that\n        # it is invoked once the future completes.\n        future.add_done_callback(release_callback)",
+    "        future = ExecutorFuture(self._executor.submit(task, get_context()))\n        release_callback()", 'permit returned at submission time')
+mut('c12_lowest_not_advanced', 'C12', UT, "                        queued.pop()\n                        self._lowest_sequence[tag] += 1\n                        self._count += 1",
+    "                        queued.pop()\n                        self._count += 1", 'lowest sequence not advanced while draining pending releases')
+mut('c13_retry_own_time_only', 'C13', BW, "        return self._total_wait\n\n    def process_scheduled_consumption", "        return time_to_consume\n\n    def process_scheduled_consumption",
+    'a refused read waits only its own time, not behind the reads already waiting')
+mut('c13_no_coordinator_recheck', 'C13', BW, "        while not self._transfer_coordinator.exception:\n            try:", "        while True:\n            try:",
+    'a failed transfer keeps waiting / reading instead of raising')
+mut('c19_no_exception_check_in_finalize', 'C19', PP, "        if self._transfer_monitor.get_exception(transfer_id):\n            self._osutil.remove_file(temp_filename)\n        else:\n            self._do_file_rename(transfer_id, temp_filename, filename)\n        self._transfer_monitor.notify_done(transfer_id)",
+    "        self._do_file_rename(transfer_id, temp_filename, filename)\n        self._transfer_monitor.notify_done(transfer_id)", 'failed download still renamed into place')
+mut('c19_jobs_announced_after_queueing', 'C19', PP, "        self._notify_jobs_to_complete(\n            download_file_request.transfer_id, num_parts\n        )\n        for i in range(num_parts):",
+    "        for i in range(num_parts):", 'NOTE replaced below')
+mut('c20_afterdone_before_subscribers', 'C20', CRT, "                future, 'done', on_done_before_calls, on_done_after_calls\n", "                future, 'done', on_done_before_calls + on_done_after_calls, []\n",
+    'permit released / done reported before the subscribers ran')
+
 
 def main():
     out = os.path.join(HERE, 'mutants')
@@ -108,6 +129,11 @@ def main():
                 # move the reset out of the retry loop
                 old = "        last_exception = None\n        for i in range(max_attempts):\n            try:\n                current_index = start_index\n"
                 new = "        last_exception = None\n        current_index = start_index\n        for i in range(max_attempts):\n            try:\n"
+            if name == 'c19_jobs_announced_after_queueing':
+                old = "        self._notify_jobs_to_complete(\n            download_file_request.transfer_id, num_parts\n        )\n        for i in range(num_parts):"
+                new = "        for i in range(num_parts):"
+                s = s.replace("                filename=download_file_request.filename,\n            )\n\n    def _submit_get_object_job(self, **get_object_job_kwargs):",
+                              "                filename=download_file_request.filename,\n            )\n        self._notify_jobs_to_complete(\n            download_file_request.transfer_id, num_parts\n        )\n\n    def _submit_get_object_job(self, **get_object_job_kwargs):")
             if s.count(old) != 1:
                 print(f'SKIP {name}: anchor found {s.count(old)} times')
                 continue
